@@ -959,6 +959,8 @@ class Interp:
                 return Int((1 << (w - 1)) - 1 if s else (1 << w) - 1, w, s)
             if name == "MIN":
                 return Int(-(1 << (w - 1)) if s else 0, w, s)
+            if name == "BITS":
+                return Int(w, 32, False)
         if ty == "f64":
             if name == "NAN":
                 return Float(z3.fpNaN(z3.Float64()))
